@@ -20,6 +20,8 @@ fn info(len: usize, ends: u8) -> KindInfo {
 const S_CHUNK: &[u16] = &[M_CHUNK, M_SINGLE | M_LEN];
 const S_BUF: &[u16] = &[M_BUF, M_SINGLE | M_LEN];
 const S_SKIP: &[u16] = &[M_SKIP, M_PULLS, M_SINGLE | M_LEN];
+/// histories in which possibly nothing at all is pulled
+const S_IDLE: &[u16] = &[M_LEN | M_SINGLE, M_LEN | M_CHUNK];
 
 fn wit(m: &Model) {
     kani::cover!(m.w_partial, "W: a chunk was only partly consumed");
@@ -204,6 +206,26 @@ fn leak_vec_chunk() {
 fn leak_vec3_buf() {
     let m = run(mkvec(3, 3).into_con_iter(), info(3, 0b111), 3, S_BUF, take);
     wit(&m);
+}
+
+// @verif family=SEQ leak=1 quick=C15 timeout=900
+// @bounds kind=Vec<Tracked> len<=3 capacity 4; prefix<=1 next(); then a len query or a single pull; then a len query or next_chunk(n<=len+2) -- includes histories in which NOTHING is pulled; end in {drop, into_seq_iter all/partly}; CBMC memory-leak check
+#[kani::proof]
+#[kani::unwind(7)]
+fn leak_vec_idle() {
+    let len = any_len(3);
+    let m = run(mkvec(len, 4).into_con_iter(), info(len, 0b111), 1, S_IDLE, take);
+    kani::cover!(m.pos == 0 && m.len > 0, "W: nothing was pulled");
+    kani::cover!(m.pos == 1, "W: exactly one element was pulled");
+}
+
+// @verif family=SEQ leak=1 quick=C15 timeout=900
+// @bounds kind=[Tracked;3]; prefix<=1 next(); len query or single pull; len query or next_chunk(n<=5) -- includes histories in which nothing is pulled; end in {drop, into_seq_iter all/partly}; CBMC memory-leak check
+#[kani::proof]
+#[kani::unwind(7)]
+fn leak_array_idle() {
+    let m = run([Tracked(0), Tracked(1), Tracked(2)].into_con_iter(), info(3, 0b111), 1, S_IDLE, take);
+    kani::cover!(m.pos == 0, "W: nothing was pulled");
 }
 
 // @verif family=SEQ leak=1 quick=C15 timeout=900
